@@ -33,14 +33,45 @@ theorem c09_delay_bounds (c : Cfg) (h : 1 ≤ c.minDelay ∧ c.minDelay ≤ c.ma
   · simp only [Nat.min_def]; split <;> omega
 
 /-- `_reconnect_wait()` advances the clock by exactly the next delay (unless the application has disconnected)
-and stores it in the register -/
+and stores it in the register — the case where nobody calls disconnect() during the wait (`inWait = false`, the
+default argument: `reconnectWait c s` is `reconnectWait c s false`) -/
 theorem c09_wait (c : Cfg) (s : St) :
-    (reconnectWait c s).delay = some (delayNext c s.delay) ∧
-    (s.disconnected = false → (reconnectWait c s).now = s.now + delayNext c s.delay * 1000) ∧
-    (s.disconnected = true → (reconnectWait c s).now = s.now) ∧
-    (reconnectWait c s).log = s.log ∧ (reconnectWait c s).disconnected = s.disconnected := by
-  refine ⟨LFLemmas.rw_delay c s, LFLemmas.rw_now c s, LFLemmas.rw_now' c s, LFLemmas.rw_log c s,
+    (reconnectWait c s false).delay = some (delayNext c s.delay) ∧
+    (s.disconnected = false → (reconnectWait c s false).now = s.now + delayNext c s.delay * 1000) ∧
+    (s.disconnected = true → (reconnectWait c s false).now = s.now) ∧
+    (reconnectWait c s false).log = s.log ∧ (reconnectWait c s false).disconnected = s.disconnected := by
+  refine ⟨LFLemmas.rw_delay c s false, LFLemmas.rw_now c s, LFLemmas.rw_now' c s, LFLemmas.rw_log c s,
     LFLemmas.rw_disconnected c s⟩
+
+/-- disconnect() from another thread during the wait (`inWait = true`): the register is still set to the next delay;
+the clock advances by one 1-second slice of it (`min d 1` seconds), hence by at most the delay; afterwards the state
+is disconnected, and exactly the user disconnect is logged, stamped with the new clock. If the application had
+already disconnected before the wait, the flag changes nothing. -/
+theorem c09_wait_inWait (c : Cfg) (s : St) :
+    (reconnectWait c s true).delay = some (delayNext c s.delay) ∧
+    (reconnectWait c s true).disconnected = true ∧
+    (reconnectWait c s true).proto = s.proto ∧
+    (s.disconnected = false →
+      (reconnectWait c s true).now = s.now + min (delayNext c s.delay) 1 * 1000 ∧
+      s.now ≤ (reconnectWait c s true).now ∧
+      (reconnectWait c s true).now ≤ s.now + delayNext c s.delay * 1000 ∧
+      (reconnectWait c s true).log = s.log ++ [.userDisconnect (reconnectWait c s true).now]) ∧
+    (s.disconnected = true → reconnectWait c s true = reconnectWait c s false) := by
+  refine ⟨LFLemmas.rw_delay c s true, LFLemmas.rw_disconnected_true c s, LFLemmas.rw_proto c s true, ?_, ?_⟩
+  · intro h
+    rw [LFLemmas.rw_now_true c s h, LFLemmas.rw_log_true c s h]
+    refine ⟨rfl, Nat.le_add_right _ _, ?_, rfl⟩
+    exact Nat.add_le_add_left (Nat.mul_le_mul_right _ (Nat.min_le_left _ _)) _
+  · intro h
+    rw [LFLemmas.rw_of_disconnected c s true h, LFLemmas.rw_of_disconnected c s false h]
+
+/-- with a well-formed configuration and a register within bounds every delay is ≥ 1 s, so a disconnect() during the
+wait is noticed exactly one second after the wait began -/
+theorem c09_wait_inWait_slice (c : Cfg) (h : 1 ≤ c.minDelay ∧ c.minDelay ≤ c.maxDelay) (s : St)
+    (hreg : ∀ x, s.delay = some x → c.minDelay ≤ x ∧ x ≤ c.maxDelay) (hs : s.disconnected = false) :
+    (reconnectWait c s true).now = s.now + 1000 := by
+  have hb := LFLemmas.delayNext_bounds c h s.delay hreg
+  rw [LFLemmas.rw_now_true c s hs, Nat.min_eq_right (by omega)]
 
 /-- an accepted CONNACK resets the register: the next wait is min_delay again -/
 theorem c09_reset (c : Cfg) (s : St) (t life : Nat) (d : DiscAt) :
@@ -191,5 +222,23 @@ example : (runScript { demoCfg with rof := false } demoScript).log
     (runScript demoCfg [.downgrade 5, .refuse {}, .accepted 0 1000 {}]).log
       = [.attempt 0 true, .attempt 5 false, .onConnectFail 5, .attempt 1005 true, .onConnect 0 1005,
          .onDisconnect 7 2005, .scriptEnd] := by decide
+
+/-- disconnect() from another thread during the back-off wait (`inWait`): the connection lives 1000 ms, the wait
+begins, the disconnect is noticed when the first 1-second slice is over (2000 ms), loop_forever() returns 7, and the
+second script item is never attempted: the log contains exactly one `.attempt`. The hypotheses of `c09_final` /
+`c09_returns` / `c09_returns_ret` are therefore satisfiable through the new branch of `reconnectWait` as well. -/
+def waitScript : List Outcome := [.accepted 0 1000 { inWait := true }, .accepted 0 0 {}]
+
+example : (runScript demoCfg waitScript).log
+      = [.attempt 0 true, .onConnect 0 0, .onDisconnect 7 1000, .userDisconnect 2000, .ret 7] ∧
+    ((runScript demoCfg waitScript).log.filter isAttempt).length = 1 ∧
+    (runScript demoCfg waitScript).log.any isUserDisc = true ∧
+    (runScript demoCfg waitScript).log.getLast? = some (.ret 7) ∧
+    -- without the flag the same script goes on to the second attempt after the full 1 s wait
+    ((runScript demoCfg [.accepted 0 1000 {}, .accepted 0 0 {}]).log.filter isAttempt).length = 2 ∧
+    -- the same after a refused attempt, and with a longer delay (2 s wait, noticed after 1 s: 1000 + 1000 ms)
+    (runScript demoCfg [.refuse {}, .refuse { inWait := true }, .accepted 0 0 {}]).log
+      = [.attempt 0 false, .onConnectFail 0, .attempt 1000 false, .onConnectFail 1000, .userDisconnect 2000,
+         .ret 7] := by decide
 
 end Paho.LF
